@@ -302,6 +302,18 @@ func execStage(t *testing.T, plan *simkit.Plan) *simkit.Result {
 		if err != nil {
 			if limit > 0 && countEntries(before) > limit {
 				s.Count("probe.scan_refused_over_limit", 1)
+				// A scan that was refused is no scan: neither staging nor a
+				// transition may follow it, and nothing may be added to a root
+				// that is already past its limit.
+				if _, _, _, serr := dst.Stage([]string{"zz-new-1", "zz-new-2"}, [][]byte{digestOf(1), digestOf(2)}); serr == nil {
+					s.Violate("C41", "stage-after-refused-scan", "Stage", "the scan was refused (%d entries, limit %d) and Stage of 2 more files was accepted all the same", countEntries(before), limit)
+				}
+				if _, _, _, terr := dst.Transition(ctx, []*core.Change{{Path: "zz-dir", New: dirEntry()}}); terr == nil {
+					s.Violate("C41", "transition-after-refused-scan", "Transition", "the scan was refused (%d entries, limit %d) and a Transition was accepted all the same", countEntries(before), limit)
+				}
+				if after := c.d.walkTree("beta"); !deepEqual(before, after) {
+					s.Violate("C41", "refusal-changed-disk", "Transition", "calls after a refused scan changed the root")
+				}
 				return
 			}
 			s.Violate("C41", "scan-error", "Scan", "destination scan failed: %v", err)
